@@ -275,7 +275,9 @@ def audit(ctx: Ctx) -> dict:
         return res
     for t in thms:
         m = re.search(rf"@@BEGIN {re.escape(t)}\n(.*?)@@END {re.escape(t)}", out, flags=re.S)
-        body = m.group(1).strip() if m else "?"
+        if not m:
+            continue                       # not printed: the theorem does not count as discharged (res["ok"] stays False)
+        body = m.group(1).strip()
         if "Closed under the global context" in body:
             res["assumptions"][t] = []
         else:
@@ -479,7 +481,9 @@ def finish(ctx: Ctx, extra_trusted=None, assumptions=None, explanation="") -> in
         if not vo_ok(f"Properties/{prop}.v"):
             ctx.tie_broken.append("proof: Properties/%s.v no longer checks (%s)" % (
                 prop, "; ".join(f"{f['file']}:{f['line']}: {f['error'][:120]}" for f in mine) or "make failed"))
-    elif not a.get("ok", False):
+    # unconditional: a stale Properties/Cxx.vo left behind by a failed make does not load against the regenerated
+    # tables (inconsistent assumptions), which the audit's coqc run reports
+    if not a.get("ok", False) and not any(t.startswith("proof:") for t in ctx.tie_broken):
         ctx.tie_broken.append("proof: audit of Properties/%s.vo failed: %s" % (prop, a.get("error", "?")[:300]))
     if b.get("gate"):
         ctx.tie_broken.append("gate: forbidden vernacular in the development: " + ", ".join(b["gate"][:5]))
